@@ -22,6 +22,110 @@ type c30Case struct {
 	NV    int     `json:"nv"`
 	Refs  [][]int `json:"refs"`
 	FRefs []int   `json:"frefs"`
+	Feats []string `json:"feats"`
+}
+
+// feature programs (MC_Determinism.FeatCases): the text of each feature as a program and as a template
+type feat struct {
+	decls, stmts string            // program: package-level declarations, statements of main
+	tmpl         string            // template text
+	files        map[string]string // additional template files
+}
+
+var featOrder = []string{"multival", "namedbool", "ifacetrue", "namedconst", "closure2", "closure3", "complexmul", "complexsub",
+	"sameline", "maplit", "switchgoto", "deferrecover", "natives", "twofiles", "methodsval", "structs"}
+
+var featTab = map[string]feat{
+	"multival": {decls: "func mv() (int, string, int) { return 1, \"s\", 3 }\nvar ma, mb, mc = mv()\nvar md, _, me = mv()\n", stmts: "println(ma, mb, mc, md, me)\n",
+		tmpl: "{% var ta, tb, tc = 1, \"s\", 3 %}{{ ta }}{{ tb }}{{ tc }}"},
+	"namedbool": {decls: "type B bool\nvar bx B = true\nvar by B = false\n", stmts: "println(bool(bx), bool(by))\n",
+		tmpl: "{% type TB bool %}{% var tbx TB = true %}{{ tbx }}"},
+	"ifacetrue": {stmts: "var it interface{} = true\nvar jf interface{} = false\n_, isb := it.(bool)\nprintln(it, jf, isb)\n",
+		tmpl: "{% var tit interface{} = true %}{% _, tisb := tit.(bool) %}{{ tisb }}"},
+	"namedconst": {decls: "type I int\nconst kc = 1\nvar ix I = kc\nvar iy interface{} = kc\n", stmts: "_, isi := iy.(int)\nprintln(int(ix), isi)\n",
+		tmpl: "{% type TI int %}{% const tkc = 1 %}{% var tix TI = tkc %}{% var tiy interface{} = tkc %}{% _, tisi := tiy.(int) %}{{ tix }}{{ tisi }}"},
+	"closure2": {decls: "func cl2(a, b int) func() int { return func() int { return a*10 + b } }\n", stmts: "println(cl2(1, 2)())\n",
+		tmpl: "{% cl := func(a, b int) func() int { return func() int { return a*10 + b } } %}{{ cl(1, 2)() }}"},
+	"closure3": {decls: "func cl3(a string, b int, c float64) (func() string, func() int) { return func() string { return a }, func() int { return b + int(c) } }\n", stmts: "c3a, c3b := cl3(\"x\", 2, 3)\nprintln(c3a(), c3b())\n",
+		tmpl: "{% macro C3(a string, b int, c string) %}{% f := func() string { return a + c } %}{% g := func() int { return b } %}{{ f() }}{{ g() }}{% end %}{{ C3(\"x\", 2, \"z\") }}"},
+	"complexmul": {decls: "func cm1(x, y complex128) complex128 { return x * y }\nfunc cm2(x, y complex128) complex128 { return x*y + x }\n", stmts: "println(cm1(1+2i, 3i), cm2(2i, 3))\n",
+		tmpl: "{% cm := func(x, y complex128) complex128 { return x * y } %}{% cm2 := func(x, y complex128) complex128 { return x*y + x } %}{{ real(cm(1+2i, 3i)) }}{{ imag(cm2(2i, 3)) }}"},
+	"complexsub": {decls: "func cs1(x, y complex128) complex128 { return x - y }\nfunc cs2(x, y complex64) complex64 { return x/y - x }\n", stmts: "println(cs1(1+2i, 3i), cs2(2i, 3))\n",
+		tmpl: "{% cs := func(x, y complex128) complex128 { return x - y } %}{{ real(cs(1+2i, 3i)) }}"},
+	"sameline": {decls: "func s1() int { return 1 }; func s2() int { return 2 }; func s3() int { return s1() + s2() }\n", stmts: "println(s3(), s2(), s1())\n",
+		tmpl: "{% macro S1 %}1{% end %}{% macro S2 %}2{% end %}{% macro S3 %}{{ S1() }}{{ S2() }}{% end %}{{ S3() }}"},
+	"maplit": {decls: "var ml = map[string]int{\"a\": 1, \"b\": 2, \"c\": 3, \"d\": 4}\n", stmts: "println(len(ml), ml[\"a\"]+ml[\"d\"])\n",
+		tmpl: "{% var tml = map[string]int{\"a\": 1, \"b\": 2, \"c\": 3} %}{{ len(tml) }}{{ tml[\"b\"] }}"},
+	"switchgoto": {decls: "func sg(n int) string {\n\ti := 0\nL:\n\tswitch {\n\tcase n > 2:\n\t\tn--\n\t\ti++\n\t\tgoto L\n\tcase n == 2:\n\t\treturn \"two\"\n\tdefault:\n\t\treturn \"other\"\n\t}\n\treturn \"\"\n}\n", stmts: "println(sg(5), sg(1))\n",
+		tmpl: "{% switch tn := 2; tn %}{% case 3, 4 %}a{% case 2 %}b{% default %}c{% end %}"},
+	"deferrecover": {decls: "func dr() (r int) {\n\tdefer func() {\n\t\tif v := recover(); v != nil {\n\t\t\tr = 7\n\t\t}\n\t}()\n\tvar m map[string]int\n\tm[\"a\"] = 1\n\treturn 1\n}\n", stmts: "println(dr())\n",
+		tmpl: "{% dr := func() (r int) { defer func() { if v := recover(); v != nil { r = 7 } }(); var m map[string]int; m[\"a\"] = 1; return 1 } %}{{ dr() }}"},
+	"natives": {stmts: "println(p.A(1), p.B(2), p.C(3), p.K1, p.K2, p.V1, p.V2)\n",
+		tmpl: "{{ p.A(1) }}{{ p.B(2) }}{{ p.C(3) }}{{ p.K2 }}"},
+	"twofiles": {decls: "func tf1() int { return 1 }\n", stmts: "println(tf1())\n",
+		tmpl: "{% import \"fa.txt\" %}{% import fb \"fb.txt\" %}{{ FA() }}{{ fb.FB() }}{{ FA2() }}",
+		files: map[string]string{"fa.txt": "{% macro FA %}a{% end %}{% macro FA2 %}a2{% end %}", "fb.txt": "{% macro FB %}b{% end %}{% macro FB2 %}b2{% end %}"}},
+	"methodsval": {decls: "var fv1 = func(a int) int { return a + gv1 }\nvar gv1 = 4\nvar fv2 = func(a int) int { return fv1(a) * gv1 }\n", stmts: "println(fv2(2))\n",
+		tmpl: "{% var tg = 4 %}{% tf1 := func(a int) int { return a + tg } %}{% tf2 := func(a int) int { return tf1(a) * tg } %}{{ tf2(2) }}"},
+	"structs": {decls: "type S1 struct {\n\tA int\n\tB string\n\tC []int\n}\nvar sv = S1{A: 1, B: \"b\", C: []int{1, 2}}\nvar sp = &S1{B: \"p\"}\n", stmts: "println(sv.A, sv.B, len(sv.C), sp.B)\n",
+		tmpl: "{% type TS struct { A int; B string } %}{% var tsv = TS{A: 1, B: \"b\"} %}{{ tsv.A }}{{ tsv.B }}"},
+}
+
+func featSrc(c c30Case, form string) scriggo.Files {
+	has := map[string]bool{}
+	for _, f := range c.Feats {
+		has[f] = true
+	}
+	var b strings.Builder
+	if form == "program" {
+		var decls, stmts strings.Builder
+		for _, n := range featOrder {
+			if has[n] {
+				decls.WriteString(featTab[n].decls)
+				stmts.WriteString(featTab[n].stmts)
+			}
+		}
+		b.WriteString("package main\n\n")
+		if has["natives"] {
+			b.WriteString("import \"p\"\n\n")
+		}
+		b.WriteString(decls.String())
+		b.WriteString("\nfunc main() {\n" + stmts.String() + "}\n")
+		return scriggo.Files{"main.go": []byte(b.String())}
+	}
+	files := scriggo.Files{}
+	if has["natives"] {
+		b.WriteString("{% import \"p\" %}")
+	}
+	for _, n := range featOrder {
+		if has[n] {
+			// imports must precede the rest
+			if n == "twofiles" {
+				continue
+			}
+		}
+	}
+	if has["twofiles"] {
+		t := featTab["twofiles"].tmpl
+		i := strings.Index(t, "{{")
+		b.WriteString(t[:i])
+		for name, src := range featTab["twofiles"].files {
+			files[name] = []byte(src)
+		}
+	}
+	for _, n := range featOrder {
+		if !has[n] {
+			continue
+		}
+		t := featTab[n].tmpl
+		if n == "twofiles" {
+			t = t[strings.Index(t, "{{"):]
+		}
+		b.WriteString(t)
+		b.WriteString("\n")
+	}
+	files["index.txt"] = []byte(b.String())
+	return files
 }
 
 var flagProc = flag.Int("proc", 1, "process number (logged)")
@@ -115,7 +219,11 @@ func build(c c30Case, form string) (asm, used, out string) {
 		}
 	}()
 	if form == "program" {
-		p, err := scriggo.Build(scriggo.Files{"main.go": []byte(progSrc(c))}, &scriggo.BuildOptions{Packages: pkgs})
+		files := scriggo.Files{"main.go": []byte(progSrc(c))}
+		if c.Feats != nil {
+			files = featSrc(c, form)
+		}
+		p, err := scriggo.Build(files, &scriggo.BuildOptions{Packages: pkgs})
 		if err != nil {
 			return "-", "-", "builderror:" + err.Error()
 		}
@@ -130,7 +238,11 @@ func build(c c30Case, form string) (asm, used, out string) {
 		globals[fmt.Sprintf("g%d", v)] = (*int)(nil)
 		vars[fmt.Sprintf("g%d", v)] = v * 10
 	}
-	t, err := scriggo.BuildTemplate(scriggo.Files{"index.txt": []byte(tmplSrc(c))}, "index.txt", &scriggo.BuildOptions{Packages: pkgs, Globals: globals})
+	tfiles := scriggo.Files{"index.txt": []byte(tmplSrc(c))}
+	if c.Feats != nil {
+		tfiles = featSrc(c, form)
+	}
+	t, err := scriggo.BuildTemplate(tfiles, "index.txt", &scriggo.BuildOptions{Packages: pkgs, Globals: globals})
 	if err != nil {
 		return "-", "-", "builderror:" + err.Error()
 	}
